@@ -13,6 +13,7 @@ import (
 	"os"
 	"runtime"
 	"strconv"
+	"strings"
 	"sync"
 	"time"
 
@@ -21,6 +22,7 @@ import (
 	"github.com/theQRL/go-qrllib/misc"
 	"github.com/theQRL/go-qrllib/xmss"
 
+	"verifharness/pathkey"
 	"verifharness/trace"
 )
 
@@ -77,6 +79,11 @@ type shared struct {
 	Seeds       [][48]uint8
 	Mnemonics   []string
 	ExtMnemonic []string
+	// valid (message, signature, public key) triples of one-path XMSS keys: heights 4..30, indices with
+	// non-zero bytes at every position of the 4-byte index field, the three hash functions
+	PathMsg [][]byte
+	PathSig [][]byte
+	PathPk  [][]byte
 }
 
 // load restores the material written by the sequential phase WITHOUT calling into the
@@ -145,6 +152,12 @@ func buildShared(r *rand.Rand) *shared {
 		r.Read(e[:])
 		s.ExtMnemonic = append(s.ExtMnemonic, misc.ExtendedSeedBinToMnemonic(e))
 	}
+	for i, hx := range [][2]int{{4, 3}, {10, 700}, {12, 4095}, {18, 70000}, {20, 1<<20 - 1}, {26, 1<<25 + 257}, {30, 1<<30 - 1}, {6, 0}, {16, 65535}} {
+		t := pathkey.Make(r, hx[0], i%3, uint32(hx[1]), hx[0], 1+r.Intn(40))
+		s.PathMsg = append(s.PathMsg, t.Msg)
+		s.PathSig = append(s.PathSig, t.Sig)
+		s.PathPk = append(s.PathPk, append([]byte{}, t.Pk[:]...))
+	}
 	s.finish()
 	return s
 }
@@ -191,6 +204,47 @@ func statelessOps(s *shared, r *rand.Rand) []op {
 		w := w
 		add("xverify-w"+strconv.Itoa(int(w)), func() string {
 			return strconv.FormatBool(xmss.VerifyWithCustomWOTSParamW(s.xmsg, s.Xsig[1], s.xpk[1], w))
+		})
+	}
+	// one-path keys: other heights, large indices
+	for i := range s.PathSig {
+		i := i
+		var pk [67]uint8
+		copy(pk[:], s.PathPk[i])
+		add("xverify-path-"+strconv.Itoa(i), func() string { return strconv.FormatBool(xmss.Verify(s.PathMsg[i], s.PathSig[i], pk)) })
+		add("xverify-path-w16-"+strconv.Itoa(i), func() string {
+			return strconv.FormatBool(xmss.VerifyWithCustomWOTSParamW(s.PathMsg[i], s.PathSig[i], pk, 16))
+		})
+	}
+	// descriptor parsing over many values (every height nibble, hash ids, formats), from bytes and from keys
+	for b0 := 0; b0 < 256; b0 += 17 {
+		b0 := b0
+		add("desc-bytes-"+strconv.Itoa(b0), func() string {
+			var out []byte
+			for b1 := 0; b1 < 256; b1 += 5 {
+				d := xmss.NewQRLDescriptorFromBytes([]uint8{uint8(b0), uint8(b1), uint8(b1 ^ b0)})
+				g := d.GetBytes()
+				out = append(out, byte(d.GetHeight()), byte(d.GetHashFunction()), byte(d.GetSignatureType()), byte(d.GetAddrFormatType()), g[0], g[1], g[2])
+				var ep [67]uint8
+				ep[0], ep[1], ep[2] = uint8(b1), uint8(b0), 7
+				d2 := xmss.NewQRLDescriptorFromExtendedPK(&ep)
+				out = append(out, byte(d2.GetHeight()), byte(d2.GetHashFunction()))
+				var es [51]uint8
+				es[0], es[1] = uint8(b0), uint8(b1)
+				d3 := xmss.NewQRLDescriptorFromExtendedSeed(es)
+				out = append(out, byte(d3.GetHeight()), byte(d3.GetHashFunction()))
+			}
+			return dg(out)
+		})
+	}
+	// mnemonic decoding of phrases with one unknown / near-miss token (refused), twice in a row in one call site
+	for i, bad := range []string{"arraq", "absorbs", "zzzz", "aback", "Abandon", "zoo", "", "a"} {
+		i, bad := i, bad
+		add("mn-unknown-"+strconv.Itoa(i), func() string {
+			ws := strings.Fields(s.Mnemonics[i%len(s.Mnemonics)])
+			ws[(i*5)%len(ws)] = bad
+			b := misc.MnemonicToSeedBin(strings.Join(ws, " "))
+			return dg(b[:])
 		})
 	}
 	// the exported helpers of misc: hash wrappers with output buffers shorter / longer than the digest,
